@@ -34,7 +34,7 @@
 (***************************************************************************)
 EXTENDS X690, TLC, Json, IOUtils
 
-CONSTANTS MaxSteps,   \* R: rewrite steps explored from every start tree (BFS)
+CONSTANTS MaxSteps,   \* R: rewrite steps applied to a start tree
           AllCuts,    \* TRUE: every cut point of a string; FALSE: boundary cut points
           MaxNest,    \* nesting depth of constructed strings (3)
           MaxVals,    \* values per case used as start states
@@ -42,8 +42,9 @@ CONSTANTS MaxSteps,   \* R: rewrite steps explored from every start tree (BFS)
 
 Cases == ndJsonDeserialize(IOEnv.CASES_FILE)
 
-VARIABLES gCase, gVi, gTree
-vars == <<gCase, gVi, gTree>>
+VARIABLES gCase, gVi, gTree, gSteps,
+          gRef     \* the reference tree of the start state (constant along a behaviour)
+vars == <<gCase, gVi, gTree, gSteps, gRef>>
 
 ------------------------------------------------------------------------------
 (* annotated trees                                                          *)
@@ -84,6 +85,17 @@ Ser2(t) ==
 
 SerBer(t) == Ser2(t).b
 WfBer(t) == Ser2(t).ok
+
+\* the same well-formedness computed from lengths only (cheap guard of the actions)
+RECURSIVE WfLen(_)
+WfLen(t) ==
+  LET ks == Force([i \in 1..Len(t.kids) |-> WfLen(t.kids[i])])
+      kok == \A i \in 1..Len(ks) : ks[i].ok
+      n == IF t.cons THEN FoldLeft(LAMBDA acc, x : acc + x.n, 0, ks) ELSE Len(t.prim)
+      il == Len(IdentifierOctets(t.cls, t.num, t.cons))
+  IN CASE t.lf = "min" -> [ok |-> kok, n |-> il + Len(LengthOctets(n)) + n]
+       [] t.lf = "indef" -> [ok |-> kok /\ t.cons, n |-> il + 1 + n + 2]
+       [] OTHER -> LET k == PadK(t.lf) IN [ok |-> kok /\ (k = 4 \/ n < Pow256(k)), n |-> il + 1 + k + n]
 
 \* the tree without annotations (X690 TPrim / TCons)
 RECURSIVE Strip(_)
@@ -227,6 +239,8 @@ Init ==
   /\ gCase \in 1..Len(Cases)
   /\ gVi \in 1..(IF IsRaw(gCase) THEN 1 ELSE Min2(MaxVals, Len(Cases[gCase].vals)))
   /\ gTree = StartTree(gCase, gVi)
+  /\ gSteps = 0
+  /\ gRef = Reference(gCase, gVi)
 
 ------------------------------------------------------------------------------
 (* the rewrite actions; p is a path, n the node at p                        *)
@@ -296,6 +310,8 @@ PermuteSet(p, n, i, j) ==
   /\ gTree' = Put(gTree, p, [n EXCEPT !.kids = Swap(n.kids, i, j), !.ord = Swap(n.ord, i, j)])
 
 Next ==
+  /\ gSteps < MaxSteps
+  /\ gSteps' = gSteps + 1
   /\ LET paths == PathsOf(gTree) IN
        \E h \in 1..Len(paths) :
          LET p == paths[h]
@@ -306,29 +322,28 @@ Next ==
                   \/ SegmentNone(p, n)
             \/ /\ n.kind \in SetKinds
                /\ \E i, j \in 1..Len(n.kids) : PermuteSet(p, n, i, j)
-  /\ WfBer(gTree')
-  /\ UNCHANGED <<gCase, gVi>>
+  /\ WfLen(gTree').ok
+  /\ UNCHANGED <<gCase, gVi, gRef>>
 
 Spec == Init /\ [][Next]_vars
-
-\* BFS bound: R rewrite steps (the level of a start state is 1)
-WithinSteps == TLCGet("level") <= MaxSteps
 
 ------------------------------------------------------------------------------
 (* M: every reachable variant reads back as the distinguished tree          *)
 
-ModelOk ==
-  LET s == Ser2(gTree)
-      r == ReadBack(s.b, gTree)
+ModelOkFor(s) ==
+  LET r == ReadBack(s.b, gTree)
   IN /\ s.ok
      /\ r.ok
-     /\ r.t = Reference(gCase, gVi)
+     /\ r.t = gRef
+     /\ Len(s.b) = WfLen(gTree).n
+
+ModelOk == ModelOkFor(Ser2(gTree))
 
 \* BerTree and X690!DerTree are two formulations of the same tree
 StartIsDer ==
-  (TLCGet("level") = 1 /\ ~IsRaw(gCase)) =>
-     /\ Strip(gTree) = Reference(gCase, gVi)
-     /\ SerBer(gTree) = Ser(Reference(gCase, gVi))
+  (gSteps = 0 /\ ~IsRaw(gCase)) =>
+     /\ Strip(gTree) = gRef
+     /\ SerBer(gTree) = Ser(gRef)
 
 ------------------------------------------------------------------------------
 (* emission of behaviours: the variant's octets and the rewrite description *)
@@ -345,10 +360,15 @@ DescOf(t, p) ==
               ELSE <<>>
   IN here \o Concat([i \in 1..Len(t.kids) |-> DescOf(t.kids[i], Append(p, i))])
 
-Variant == [cid |-> Cases[gCase].cid, vi |-> gVi, b |-> SerBer(gTree), d |-> DescOf(gTree, <<>>)]
+Variant(bytes) == [cid |-> Cases[gCase].cid, vi |-> gVi, b |-> bytes, d |-> DescOf(gTree, <<>>)]
 
-Emit ==
-  Serialize(ToJson(Variant) \o "\n", IOEnv.OUT_FILE,
+EmitFor(bytes) ==
+  Serialize(ToJson(Variant(bytes)) \o "\n", IOEnv.OUT_FILE,
             [format |-> "TXT", charset |-> "UTF-8", openOptions |-> <<"WRITE", "CREATE", "APPEND">>]).exitValue = 0
+
+Emit == EmitFor(SerBer(gTree))
+
+\* both at once (one serialisation per state): the model-level check, then emission
+CheckAndEmit == LET s == Ser2(gTree) IN ModelOkFor(s) /\ EmitFor(s.b)
 
 =============================================================================
